@@ -494,7 +494,7 @@ def oracle_rest(rng, n):
             hist["skipped-unmodelled:" + ("holds" if ok else "fails")] += 1
             continue
         hist[("holds" if ok else "fails") + ":" + (cls or "in-guard")] += 1
-        if cls is None and c["ir"]["params"]:
+        if cls is None and (c["ir"]["params"] or c["ir"]["returns"]):
             seen.add(dumps([wire[i], c["keep_sentence"]]))
         mh = hold_out[i]
         if not c["word_wrap"] and mh != "unmodelled" and (mh == "true") != ok:
@@ -506,7 +506,7 @@ def oracle_rest(rng, n):
         "distinct_nontrivial": len(seen),
         "rule": "IRs from gen_ir (clean and general strata) x emitter word_wrap x parser emit_default_doc; emitted by the "
                 "real emit.docstring(rest), parsed by the real parse.docstring, compared by the extracted same_interface; "
-                "non-trivial = distinct IR with >= 1 parameter inside guard_C01_rest",
+                "non-trivial = distinct IR with >= 1 parameter or a return entry inside guard_C01_rest",
         "failures": failures,
         "model_impl_property_disagreements": disagree,
         "histogram": dict(hist),
